@@ -578,9 +578,72 @@ def explore_catchup_scan(ctx):
     shutil.rmtree(base, ignore_errors=True)
 
 
+def explore_connect(ctx):
+    """the fallback connector: the database object that the real `_connect` hands out must carry the retry (the mixin first in its method
+    resolution order).  peewee 4.5 cannot re-class its own database objects (observation O-3), so `db_url.connect` is made to return a plain
+    Python front-end with the interface the mixin relies on; one transient OperationalError outside a transaction must then be absorbed by
+    one reconnect and one retry, a persistent one reported after exactly one retry, and none retried inside a transaction."""
+    import peewee as pw
+    from alpenhorn.db import _base as B
+
+    src = ast.unparse(T.find_func(T.parse(core.REPO / "alpenhorn/db/_base.py"), "_connect"))
+    ctx.attempted.append("connect-pin")
+    if "db.__class__ = type('RetryableDatabase', (RetryOperationalError, type(db)), {})" in src:
+        ctx.obligations.append("connect-pin")
+    else:
+        ctx.broke("translator", "_connect", "UNTRANSLATABLE: _connect no longer builds the database class as type('RetryableDatabase', (RetryOperationalError, type(db)), {}) (the retry mixin first)")
+
+    for in_txn in (False, True):
+        for fails in (0, 1, 2):
+            st = {"sent": 0, "closed": 0}
+
+            class FrontEnd:
+                autoconnect = True
+
+                def execute_sql(self, sql, params=None, commit=None, _st=st, _fails=fails):
+                    _st["sent"] += 1
+                    if _st["sent"] <= _fails:
+                        raise pw.OperationalError("server has gone away (injected by the harness)")
+                    return "cursor"
+
+                def in_transaction(self, _t=in_txn):
+                    return _t
+
+                def is_closed(self):
+                    return False
+
+                def close(self, _st=st):
+                    _st["closed"] += 1
+
+            orig = B.db_url.connect
+            B.db_url.connect = lambda url, **kw: FrontEnd()
+            try:
+                try:
+                    db = B._connect({"url": "frontend://harness"})
+                except TypeError as e:
+                    ctx.broke("harness", "_connect", f"the real _connect could not re-class the front-end: {e}")
+                    return
+            finally:
+                B.db_url.connect = orig
+            try:
+                db.execute_sql("SELECT 1")
+                err = False
+            except pw.OperationalError:
+                err = True
+            ctx.count("connect-retry")
+            ctx.distinct_add(("connect", in_txn, fails))
+            exp_sent = 1 if (fails == 0 or in_txn) else 2
+            exp_err = fails >= 1 if in_txn else fails >= 2
+            rp = {"family": "connect", "in_transaction": in_txn, "statements_failing": fails, "sent": st["sent"], "reconnects": st["closed"], "error_reported": err}
+            if (st["sent"], err) != (exp_sent, exp_err) or (exp_sent == 2 and st["closed"] != 1):
+                ctx.fail("C10:retry", f"database built by _connect, in a transaction={in_txn}, the first {fails} send(s) fail with OperationalError: the statement was sent {st['sent']} time(s), "
+                         f"{st['closed']} reconnect(s), error reported={err}; expected {exp_sent} send(s), error={exp_err}", rp)
+
+
 def explore(ctx):
     explore_scripts(ctx, 400 if ctx.quick() else 8000)
     explore_retry(ctx)
+    explore_connect(ctx)
     explore_pool(ctx)
     explore_real_pulls(ctx)
     explore_real_imports(ctx)
